@@ -43,13 +43,17 @@ structure Cfg where
   hreuseChecks : Bool
   hsetlengthChecks : Bool
   reopenSetsAccess : Bool
+  /-- `HLcreate` / `HLconvert` refuse a block length or a number of blocks per table that is not positive (with 0 blocks
+      `HLInewlink` writes beyond its 0-element table; with a block length of 0 `HLPwrite` divides by zero) -/
+  hlRefusesZero : Bool := true
 deriving DecidableEq, Repr
 
 /-- what the current source says -/
 def Cfg.current : Cfg :=
   { hdelddChecks := H4.Gen.Src.HDELDD_CHECKS_ACCESS, hdupddChecks := H4.Gen.Src.HDUPDD_CHECKS_ACCESS,
     hreuseChecks := H4.Gen.Src.HDREUSE_CHECKS_ACCESS, hsetlengthChecks := H4.Gen.Src.HSETLENGTH_CHECKS_ACCESS,
-    reopenSetsAccess := H4.Gen.Src.HOPEN_REOPEN_SETS_ACCESS }
+    reopenSetsAccess := H4.Gen.Src.HOPEN_REOPEN_SETS_ACCESS,
+    hlRefusesZero := H4.Gen.Src.HLCREATE_REFUSES_ZERO && H4.Gen.Src.HLCONVERT_REFUSES_ZERO }
 
 /-- every mutator of the DD layer tests `DFACC_WRITE` -/
 def Cfg.guarded (c : Cfg) : Bool := c.hdelddChecks && c.hdupddChecks && c.hreuseChecks && c.hsetlengthChecks
@@ -201,10 +205,17 @@ def hpWrite (s : State) (off : Nat) (bs : Bytes) : State × Bool :=
   let s := { s with log := s.log ++ [(⟨0, off, bs⟩ : WriteRec)] }
   if s.f.streamW then ({ s with f := { s.f with disk := writeAt s.f.disk off bs } }, true) else (s, false)
 
-/-- `HPseek(off)` + `HP_read(n)`: `none` on a short read -/
+/-- `HPseek(off)` + `HP_read(n)`.  The file may end inside the range: with DD caching on, space handed out by
+    `HPgetdiskblock` in this session lies below `f_end_off` while the file is only extended at the next sync
+    (`FILE_END_DIRTY`); such bytes are delivered as zeros (`H4.Gen.Src.HPREAD_ZERO_FILLS_RESERVED`, af826f2).  Every other
+    short read is `none` (an error).  No write is issued either way. -/
 def hpRead (s : State) (off n : Nat) : Option Bytes :=
   if n == 0 then some []                       -- a read of nothing succeeds wherever the stream stands
-  else if off + n ≤ s.f.disk.length then some ((s.f.disk.drop off).take n) else none
+  else if off + n ≤ s.f.disk.length then some ((s.f.disk.drop off).take n)
+  else if s.f.cache && s.f.dirty &&& FILE_END_DIRTY != 0 && off + n ≤ s.f.endOff then
+    let got := (s.f.disk.drop off).take n
+    some (got ++ List.replicate (n - got.length) 0)
+  else none
 
 /-! ## DD list in memory and on disk -/
 
@@ -507,17 +518,20 @@ def setLength (cfg : Cfg) (s : State) (aid : Nat) (len : Nat) : State × Res :=
         else (setAcc r.1 { a with newElem := false }, .ok)
 
 /-- `HLconvert(aid, ...)`: argument and access checks only (no state change in the model) -/
-def hlConvert (s : State) (aid : Nat) : Res :=
+def hlConvert (cfg : Cfg) (s : State) (aid : Nat) : Res :=
   match findAcc s aid with
   | none => .fail
   | some a =>
+    let dd := slotDD s.f.blocks a.slot
     if badFrec s a.fid then .fail
     else if !canWrite s.f then .fail
-    else if SPECIALTAG (slotDD s.f.blocks a.slot).tag != 0 then .fail
+    else if SPECIALTAG dd.tag != 0 then .fail
+    -- "the data doesn't exist yet": `Hsetlength(aid, 0)` has to succeed first (it tests the access record's DFACC_WRITE)
+    else if dd.off == INVALID_OFFSET && dd.len == INVALID_LENGTH && (setLength cfg s aid 0).2 == .fail then .fail
     else .pass
 
 /-- `Hseek(aid, offset, origin)` on an ordinary element; `pass` on a special one -/
-def seek (s : State) (aid : Nat) (offset : Int) (origin : Nat) : State × Res :=
+def seek (cfg : Cfg) (s : State) (aid : Nat) (offset : Int) (origin : Nat) : State × Res :=
   match findAcc s aid with
   | none => (s, .fail)
   | some a =>
@@ -530,7 +544,7 @@ def seek (s : State) (aid : Nat) (offset : Int) (origin : Nat) : State × Res :=
       else if offset < 0 || (!a.appendable && offset > dd.len) then (s, .fail)
       else if a.appendable && offset ≥ dd.len && dd.len + dd.off != (s.f.endOff : Int) then
         -- not at the end of the file: promotion to a linked-block element
-        if hlConvert s aid == .pass then (setAcc s { a with special := SPECIAL_LINKED, appendable := false }, .pass)
+        if hlConvert cfg s aid == .pass then (setAcc s { a with special := SPECIAL_LINKED, appendable := false }, .pass)
         else (setAcc s { a with appendable := false }, .fail)
       else (setAcc s { a with posn := offset.toNat }, .ok)
 
@@ -582,7 +596,7 @@ def write (cfg : Cfg) (s : State) (aid : Nat) (data : Bytes) : State × Res :=
       else
         let grow := a.appendable && (length + a.posn : Int) > dd.len
         if grow && dd.len + dd.off != (s.f.endOff : Int) then
-          if hlConvert s aid == .pass then (setAcc s { a with special := SPECIAL_LINKED, appendable := false }, .pass)
+          if hlConvert cfg s aid == .pass then (setAcc s { a with special := SPECIAL_LINKED, appendable := false }, .pass)
           else (setAcc s { a with appendable := false }, .fail)
         else
           -- the element grows in place: a gap between its old end and the write position is zero-filled (fix 998a325)
@@ -862,7 +876,7 @@ def step (cfg : Cfg) (s : State) : Op → State × Res
   | .startwrite fid tag ref len => startWrite cfg s fid tag ref len
   | .setlength aid len => setLength cfg s aid len
   | .appendable aid => appendable s aid
-  | .seek aid off origin => seek s aid off origin
+  | .seek aid off origin => seek cfg s aid off origin
   | .read aid len => read s aid len
   | .write aid data => write cfg s aid data
   | .trunc aid len => trunc s aid len
@@ -874,10 +888,16 @@ def step (cfg : Cfg) (s : State) : Op → State × Res
   | .deldd fid tag ref => deldd cfg s fid tag ref
   | .dupdd fid tag ref otag oref => dupdd cfg s fid tag ref otag oref
   | .reuse fid tag ref => reuse cfg s fid tag ref
-  | .hlcreate fid tag _ blen nblk => specialCreate s fid tag (blen ≥ 0 && nblk ≥ 0)
-  | .hlconvert aid blen nblk => if blen < 0 || nblk < 0 then (s, .fail) else (s, hlConvert s aid)
+  | .hlcreate fid tag _ blen nblk => specialCreate s fid tag (blen ≥ 0 && nblk ≥ 0 && !(cfg.hlRefusesZero && (blen == 0 || nblk == 0)))
+  | .hlconvert aid blen nblk =>
+    if blen < 0 || nblk < 0 || (cfg.hlRefusesZero && (blen == 0 || nblk == 0)) then (s, .fail) else (s, hlConvert cfg s aid)
   | .hxcreate fid tag _ off => specialCreate s fid tag (off ≥ 0)
-  | .hccreate fid tag _ => specialCreate s fid tag true
+  | .hccreate fid tag ref =>
+    -- an existing element is read into memory first (`malloc(data_len)` + `Hgetelement`): a descriptor without data
+    -- (length INVALID_LENGTH, left by `HDreuse_tagref` or a `Hstartwrite` that never wrote) cannot be read
+    match specialCreate s fid tag true, findDD s.f.blocks tag ref with
+    | (s', .pass), some (_, dd) => if dd.len == INVALID_LENGTH then (s', .fail) else (s', .pass)
+    | r, _ => r
   | .hmccreate fid tag _ => specialCreate s fid tag true
 
 def run (cfg : Cfg) (s : State) : List Op → State
